@@ -263,9 +263,13 @@ def start_is_safe(prog: Program, rep) -> None:
     rs = returns_of(ts)
     xs = [p for p in ts.params if p != "self"][0]
     ok = False
-    if len(rs) == 1:
-        v = ft.resolved(rs[0], rs[0].value)
+    alts = set()
+    shape_ok = bool(rs)
+    for r_ in rs:
+        v = ft.resolved(r_, r_.value)
         if isinstance(v, ast.Call) and U(v.func) == "self.trans_problem.transform_sol" and v.args:
-            alts = {U(a) for a in phi_alternatives(v.args[0])}
-            ok = alts == {xs, f"self.scaling.scale_primal({xs})"}
+            alts |= {U(a) for a in phi_alternatives(v.args[0])}
+        else:
+            shape_ok = False
+    ok = shape_ok and alts == {xs, f"self.scaling.scale_primal({xs})"}
     rep.check(ok, "start-is-box-safe", ts.qualname, short(rs[0]) if rs else "", "transform_sol maps x through scale_primal (or not at all) and then through the slack embedding", ts.loc())
